@@ -141,6 +141,57 @@ Check C01_change_histories : forall H B T,
       = Ok (mkPlan "" None None (next_version (H ++ [fill_plan p B])) []) /\
     Grown c01_change_models (H ++ [fill_plan p B]).
 
+(* C01_core, the largest proved fragment: per surviving table the group may mix attribute changes,
+   added constraints, added columns whose inline unique / index / foreign_key declarations are private
+   to them and already listed by the target, dropped columns together with the constraints over them
+   alone, removed foreign keys (inline declarations are cleared with them) and removed constraints that no
+   inline declaration depends on (core_only = change_only || inl_only || mix_only, Corr/Hyp.v) *)
+Theorem C01_core : forall B T,
+  baseline_ok B = true -> c01_core_models B T = true -> closes_gap B T = true.
+Proof. exact C01HistP.C01_core. Qed.
+Print Assumptions C01_core.
+Check C01_core : forall B T,
+  baseline_ok B = true -> c01_core_models B T = true -> closes_gap B T = true.
+
+Theorem C01_core_invariant : forall B T, baseline_ok B = true -> c01_core_models B T = true ->
+  exists acts B',
+    diff_actions B T = Ok acts /\ apply_all B acts = Ok B' /\ baseline_ok B' = true
+    /\ diff_actions B' T = Ok [] /\ diff_actions T B' = Ok [].
+Proof. exact c01_core_sound. Qed.
+Print Assumptions C01_core_invariant.
+Check C01_core_invariant : forall B T, baseline_ok B = true -> c01_core_models B T = true ->
+  exists acts B',
+    diff_actions B T = Ok acts /\ apply_all B acts = Ok B' /\ baseline_ok B' = true
+    /\ diff_actions B' T = Ok [] /\ diff_actions T B' = Ok [].
+
+Theorem C01_core_history_baseline : forall H, Grown c01_core_models H ->
+  exists B, replay H = Ok B /\ baseline_ok B = true.
+Proof. exact C01HistP.C01_core_history_baseline. Qed.
+Print Assumptions C01_core_history_baseline.
+Check C01_core_history_baseline : forall H, Grown c01_core_models H ->
+  exists B, replay H = Ok B /\ baseline_ok B = true.
+
+Theorem C01_core_histories : forall H B T,
+  Grown c01_core_models H -> replay H = Ok B -> c01_core_models B T = true ->
+  exists p B',
+    plan_next T H = Ok p /\ closes_gap B T = true /\
+    replay (H ++ [fill_plan p B]) = Ok B' /\ baseline_ok B' = true /\
+    diff_actions B' T = Ok [] /\ diff_actions T B' = Ok [] /\
+    plan_next T (H ++ [fill_plan p B])
+      = Ok (mkPlan "" None None (next_version (H ++ [fill_plan p B])) []) /\
+    Grown c01_core_models (H ++ [fill_plan p B]).
+Proof. exact C01HistP.C01_core_histories. Qed.
+Print Assumptions C01_core_histories.
+Check C01_core_histories : forall H B T,
+  Grown c01_core_models H -> replay H = Ok B -> c01_core_models B T = true ->
+  exists p B',
+    plan_next T H = Ok p /\ closes_gap B T = true /\
+    replay (H ++ [fill_plan p B]) = Ok B' /\ baseline_ok B' = true /\
+    diff_actions B' T = Ok [] /\ diff_actions T B' = Ok [] /\
+    plan_next T (H ++ [fill_plan p B])
+      = Ok (mkPlan "" None None (next_version (H ++ [fill_plan p B])) []) /\
+    Grown c01_core_models (H ++ [fill_plan p B]).
+
 (* reduction to single tables: the plan closes the gap on the whole schema as soon as, for every table
    name, the subsequence of the plan naming that table, run on that table alone, ends in a
    normalisation fix-point the planner cannot tell from the model's table (c01_local, decidable);
@@ -397,3 +448,18 @@ Example C01_change_nonvacuous :
         AddConstraint "t" (CUnique None ["a"; "d"]);
         AddConstraint "t" (CForeignKey None ["c"] "new" ["id"] None None)].
 Proof. exact w_change_hyp. Qed.
+
+(* a core step outside c01_change: inline column dropped with its index, foreign key removed with its
+   inline declaration cleared, column added with inline unique / named index / foreign key *)
+Example C01_core_nonvacuous :
+  c01_core w_core_B w_core_T = true /\ c01_change w_core_B w_core_T = false /\
+  loader_accepts w_core_T = true /\
+  diff_actions w_core_B w_core_T =
+    Ok [DeleteColumn "t" "b"; ModifyColumnType "t" "a" (TSimple Text) None;
+        ModifyColumnNullable "t" "a" false None; ModifyColumnDefault "t" "a" (Some "x");
+        AddColumn "t" w_core_c None; RemoveConstraint "t" (CCheck "pos" "a > 0");
+        RemoveConstraint "t" (CForeignKey None ["u"] "o" ["id"] None None);
+        AddConstraint "t" (CUnique (Some "ua") ["a"]); AddConstraint "t" (CUnique None ["c"]);
+        AddConstraint "t" (CForeignKey None ["c"] "o" ["id"] None None);
+        AddConstraint "t" (CIndex (Some "ix_c") ["c"])].
+Proof. exact w_core_hyp. Qed.
